@@ -95,6 +95,8 @@ def _run_case(ctx, case):
         want_w = max(0, min(b, W) - min(a, W))
         try:
             r = f.width_aware_slice(slice(a, b))
+            if (a + b) % 3 == 0:
+                r = f.width_aware_slice(slice(a, b))     # asked again: nothing may be carried over
             got = obs.cells(r)
         except Exception as ex:  # noqa
             ctx.judge(False, case, mech=mech, expected=obs.show([e[0] for e in E]), got=repr(ex),
